@@ -20,6 +20,7 @@ import YowsupVerif.Drv.Payload
 import YowsupVerif.Drv.Conc
 import YowsupVerif.Drv.SendBuf
 import YowsupVerif.Drv.Handshake
+import YowsupVerif.Drv.SentQueue
 open Yow Yow.Drv
 
 structure DrvState where
@@ -33,9 +34,11 @@ structure DrvState where
   trust : Yow.Trust.St := Yow.Trust.init
   e2e : Yow.E2E.Sys := {}
   hs : Yow.HS.St := {}
+  sq : List Nat := []
 
 def step (s : DrvState) (line : String) : DrvState × String :=
   match (line.splitOn " ").filter (· ≠ "") with
+  | "sq" :: rest => let r := sqStep s.sq rest; ({ s with sq := r.1 }, r.2)
   | "seg" :: rest => let r := segStep s.seg rest; ({ s with seg := r.1 }, r.2)
   | "coder" :: rest => (s, coderStep rest)
   | "iq" :: rest => let r := iqStep s.iq rest; ({ s with iq := r.1 }, r.2)
